@@ -188,3 +188,30 @@ def own_c08(tier, seed, params):
                 for fa, fb in ZIP_FORMS:
                     out.append("op=zip form=%s form2=%s n=%d kind=%s kind2=%s fault=none" % (fa, fb, n, kind, kind2))
     return out
+
+
+SEQ_KINDS = ["u8", "u64", "w24", "tr", "z"]
+
+
+def seq(tier, seed, params):
+    out = []
+    ns = list(range(0, 9)) + [16, 17, 33]
+    for kind in SEQ_KINDS:
+        for n in ns:
+            out.append("op=append n=%d kind=%s" % (n, kind))
+            out.append("op=prepend n=%d kind=%s" % (n, kind))
+            if n >= 1:
+                out.append("op=pop_back n=%d kind=%s" % (n, kind))
+                out.append("op=pop_front n=%d kind=%s" % (n, kind))
+                idxs = list(range(0, n + 2)) + [18446744073709551615] if n <= 8 else [0, 1, n // 2, n - 1, n, n + 1, 18446744073709551615]
+                for i in idxs:
+                    out.append("op=remove n=%d i=%d kind=%s" % (n, i, kind))
+                    out.append("op=swap_remove n=%d i=%d kind=%s" % (n, i, kind))
+        pairs = [(n, k) for n in range(0, 9) for k in range(0, n + 1)] + [(16, 5), (17, 16), (33, 1), (33, 32)]
+        for (n, k) in pairs:
+            for op in ("split", "split_ref", "split_mut"):
+                out.append("op=%s n=%d k=%d kind=%s" % (op, n, k, kind))
+        cpairs = [(n, m) for n in range(0, 9) for m in range(0, 9 - n)] + [(16, 1), (1, 16), (16, 17)]
+        for (n, m) in cpairs:
+            out.append("op=concat n=%d k=%d kind=%s" % (n, m, kind))
+    return out
